@@ -438,8 +438,10 @@ class Interp:
         if k1 in ("break", "continue") or k2 in ("break", "continue"):
             # loop exits are handled by the loop summariser: continue with the non-exiting branch
             if k1 in ("break", "continue") and k2 is None:
+                if _wrote_arrays(s1): _carry_effects(s1, s2, cond, True)       # stores made before leaving the iteration live on, under the condition
                 _adopt(st, s2); st.loop_exits = getattr(st, "loop_exits", []) + [(cond, True, k1)]; return None
             if k2 in ("break", "continue") and k1 is None:
+                if _wrote_arrays(s2): _carry_effects(s2, s1, cond, False)
                 _adopt(st, s1); st.loop_exits = getattr(st, "loop_exits", []) + [(cond, False, k2)]; return None
             if k1 == k2: _adopt(st, s1); return r1
             if k1 == "raise": _adopt(st, s2); return r2
@@ -991,6 +993,14 @@ def _remap(v, mp, seen=None):
     return v
 
 
+def _wrote_arrays(s_exit):
+    """the branch stored into an array that existed before the fork"""
+    for oid, c_ in s_exit._memo.items():
+        orig = ORIG.get(oid)
+        if isinstance(orig, LocalArr) and isinstance(c_, LocalArr) and len(c_.stores) > len(orig.stores): return True
+    return False
+
+
 def _carry_effects(s_ret, s_cont, cond, pol_ret):
     """a branch that returns early may have written into arrays that live on (output buffers): keep those stores, marked with the
     branch condition, and mark everything the continuing branch stores from now on with the opposite condition."""
@@ -1048,6 +1058,17 @@ def _merge_into(st, s1, s2, cond):
             v = s1.env.get(k, s2.env.get(k))
             env[k] = mk_pv(cond, v, Opaque(f"{k} unbound on one branch")) if k in s1.env else mk_pv(cond, Opaque(f"{k} unbound on one branch"), v)
     st.env = env
+    # one branch left the iteration / function early on a sub-path (conditional continue / return after a store): what follows runs only on
+    # the remaining paths.  That set is not a conjunction of conditions in general: later stores are marked with a condition of their own.
+    u0 = list(getattr(st, "under", [])); u1 = list(getattr(s1, "under", [])); u2 = list(getattr(s2, "under", []))
+    if len(u1) != len(u2) or any(a_[:2] != b_[:2] for a_, b_ in zip(u1, u2)):
+        more1 = u1[len(u0):]; more2 = u2[len(u0):]
+        if more1 and not more2 and all(len(e_) == 2 for e_ in more1):
+            # only the branch [cond] gained restrictions r: the rest runs under  not(cond) or r.  With a single restriction that is decidable for
+            # the marks: keep it exact when r is one condition by recording both as an opaque but named condition
+            pass
+        c_ = Cond.get(("src", "rest-after-conditional-exit", id(s1), id(s2)), "remaining paths after a conditional early exit")
+        st.under = u0 + [(c_, True)]
     st.early = s1.early + [e for e in s2.early if e not in s1.early]
     st.atom_eq = {k: v for k, v in s1.atom_eq.items() if k in s2.atom_eq}
     le = getattr(s1, "loop_exits", []) + [e for e in getattr(s2, "loop_exits", []) if e not in getattr(s1, "loop_exits", [])]
